@@ -385,7 +385,7 @@ def extra_rules(ctx, P, fns):
         if fld not in fl:
             raise AnalysisIncomplete("anchor vanished: field %s.%s" % (rec, fld))
         base = re.sub(r"\s*\[.*$", "", fl[fld])
-        ctx.check(o14, base in ("int", "unsigned int", "long", "unsigned long", "long long"), "%s.%s" % (rec, fld), P.records[rec]["file"].replace("/repo/", ""), "`%s.%s` is declared `%s`: indices / frames / scores beyond 16 bits are truncated silently" % (rec, fld, fl[fld]), fl[fld])
+        ctx.check(o14, base in ("int", "unsigned int", "long", "unsigned long", "long long"), "%s.%s" % (rec, fld), P.records[rec]["file"].split("/repo/")[-1], "`%s.%s` is declared `%s`: indices / frames / scores beyond 16 bits are truncated silently" % (rec, fld, fl[fld]), fl[fld])
     for name in ("fsg_history_entry_add", "fsg_history_entry_get", "fsg_history_n_entries"):
         g = P.fn(name, "fsg_history.c")
         for pr in g.params:
